@@ -13,7 +13,7 @@ from .solver import scan_solver
 from .. import uscan
 from . import targets
 
-ROW_CATS = ('row-units', 'add-units', 'qstr', 'qstr-format', 'sum-mix', 'compare-units', 'to-storage', 'add-cell', 'round-then-scale')
+ROW_CATS = ('row-units', 'add-units', 'qstr', 'qstr-format', 'truncating-division', 'sum-mix', 'compare-units', 'to-storage', 'add-cell', 'round-then-scale')
 STORAGE_CATS = ('convert-from-unit', 'from-storage', 'storage-label', 'storage-compare')
 
 
